@@ -31,3 +31,20 @@ Theorem C18_unrelated_key_ignored : forall ps keys j,
   (forall e, In e ps -> lookup j (p_open e) = None) -> found_pk ps (keys ++ [j]) = found_pk ps keys.
 Proof. exact unrelated_key_ignored. Qed.
 Print Assumptions C18_unrelated_key_ignored.
+
+(* anonymous recipients: every presented key is tried, wherever it stands among the keys (and subkeys) presented;
+   named recipients: the named key is tried, and only it *)
+Theorem C18_wildcard_tries_every_key : forall (es : list pkesk) (ks : list N) e j k,
+  In e es -> p_id e = None -> In j ks -> lookup j (p_open e) = Some k -> In k (found_pk es ks).
+Proof. exact wildcard_tries_every_key. Qed.
+Print Assumptions C18_wildcard_tries_every_key.
+
+Theorem C18_named_key_is_tried : forall (es : list pkesk) (ks : list N) e i k,
+  In e es -> p_id e = Some i -> In i ks -> lookup i (p_open e) = Some k -> In k (found_pk es ks).
+Proof. exact named_key_is_tried. Qed.
+Print Assumptions C18_named_key_is_tried.
+
+Theorem C18_named_packet_only_named_key : forall (ks : list N) e i k,
+  p_id e = Some i -> In k (found_pk [e] ks) -> In i ks /\ lookup i (p_open e) = Some k.
+Proof. exact named_packet_only_named_key. Qed.
+Print Assumptions C18_named_packet_only_named_key.
